@@ -151,6 +151,9 @@ def run_step(U, backend, build, widen=12, cut_points=True):
   scenario.WIDEN[0] = widen if widen is not None else 10 ** 9
   _joint_contracts(I)
   n, sysd, st, act, c = build()
+  # gravity REPLACED on the System after loading (sys.replace(gravity=...), gravity randomisation): the law is stated for
+  # sys.gravity; the copy mjx keeps in sys.opt.gravity is the value at load time
+  sysd.f['gravity'] = symarr('grepl', (3,))
   nq, nv = sysd.f['nq'], sysd.f['nv']
   # the state carries the effective mass computed by pipeline.init from the system
   k = 1 - sysd.f['spring_mass_scale']
